@@ -1,0 +1,47 @@
+//go:build verif
+// +build verif
+
+package mod_block
+
+import (
+	"github.com/bfenetworks/bfe/bfe_basic"
+	"github.com/bfenetworks/bfe/bfe_basic/condition"
+	"github.com/bfenetworks/bfe/bfe_http"
+	"github.com/bfenetworks/bfe/bfe_util/ipdict"
+)
+
+// VerifRule is an in-memory block rule.  For the out-of-tree verification harness.
+type VerifRule struct {
+	Cond string
+	Name string
+	Cmd  string
+}
+
+type VerifModule struct{ m *ModuleBlock }
+
+func VerifNew() *VerifModule { return &VerifModule{m: NewModuleBlock()} }
+
+// Accept installs the global ip table and runs globalBlockHandler on session.
+func (v *VerifModule) Accept(items *ipdict.IPItems, session *bfe_basic.Session) int {
+	v.m.ipTable.Update(items)
+	return v.m.globalBlockHandler(session)
+}
+
+// Request installs the product rule table and runs productBlockHandler on req.
+func (v *VerifModule) Request(table map[string][]VerifRule, req *bfe_basic.Request) (int, *bfe_http.Response, error) {
+	conf := productRuleConf{Version: "verif", Config: ProductRules{}}
+	for product, rules := range table {
+		list := make(blockRuleList, 0, len(rules))
+		for _, r := range rules {
+			cond, err := condition.Build(r.Cond)
+			if err != nil {
+				return 0, nil, err
+			}
+			list = append(list, blockRule{Cond: cond, Name: r.Name, Action: Action{Cmd: r.Cmd, Params: []string{}}})
+		}
+		conf.Config[product] = &list
+	}
+	v.m.ruleTable.Update(conf)
+	ret, resp := v.m.productBlockHandler(req)
+	return ret, resp, nil
+}
